@@ -9,7 +9,10 @@ ENGINES = {
     "C19": ("props.c19", "run"),
     "C06": ("props.c06", "run"),
     "C04": ("props.c04", "run"),
+    "C05": ("props.c05", "run"),
     "C16": ("props.c16", "run"),
+    "C14": ("props.exec_claims", "run"),
+    "C15": ("props.exec_claims", "run"),
 }
 
 
